@@ -11,6 +11,15 @@ verus! {
 
 global size_of usize == 8;
 
+/// `Rc<ManagedXValue>` holding the inner generator
+pub struct Inner;
+impl Inner {
+    #[verifier::external_body]
+    pub fn clone(&self) -> (r: Inner) { unimplemented!() }
+}
+/// the representation under contract (the other variants do not occur in the extracted text)
+pub enum XGenerator { Slice(Inner, usize, Option<usize>), Other }
+
 pub struct BIter { pub view: Ghost<Seq<int>> }
 pub enum Either<L, R> { Left(L), Right(R) }
 
